@@ -366,7 +366,7 @@ func init() {
 		{"p2tr_key", 16, join(mTapSig, []string{"annex_strip", "annex_add", "annex_only", "scriptsig_nonempty", "extra_item", "witness_empty", "pk_flip"}),
 			func(g *gen, c *spendCtx) ([]byte, [][]byte) { _, w := g.tapKeyPath(c); return nil, w }, "native"},
 		{"p2tr_pk", 12, tapLeaf, tapLeafKind("pk", false), "native"},
-		{"p2tr_csa", 8, join(tapLeaf, []string{"csa_extra_sig"}), tapLeafKind("csa", false), "native"},
+		{"p2tr_csa", 8, append(append([]string{}, tapLeaf...), "csa_extra_sig", "csa_extra_sig", "csa_extra_sig"), tapLeafKind("csa", false), "native"},
 		{"p2tr_misc", 10, join(tapLeaf, mMisc), tapLeafKind("misc", false), "native"},
 		{"p2tr_opsuccess", 6, join(mTapCommit, []string{"opsuccess_after_truncated", "scriptsig_nonempty"}), buildOpSuccess, "native"},
 		{"p2tr_budget", 4, []string{"budget_minus_one", "sig_corrupt", "wrong_parity"}, buildBudget, "native"},
